@@ -599,6 +599,11 @@ COPY_PROBE_DIR = [
     ("media", "dir", [("top.dat", "file", None)]),
     ("notes.txt", "file", None),
     ("zz.txt", "file", None),
+    ("solo", "dir", [
+        ("index.md", "page", ("Solo", ["keep"])),
+        ("keep", "dir", [("k.dat", "file", None)]),
+        ("media", "dir", [("not-copied.dat", "file", None)]),
+    ]),
     ("tut", "dir", [
         ("index.md", "page", ("Tutorial", [])),
         ("b.md", "page", ("B", [])),
